@@ -261,7 +261,7 @@ def gram_charlier(cumulants, kmax, integrate=False):
     # polynomial in y = x - mu
     y = sympy.Symbol("y")
     Py = sympy.Poly(sympy.expand(poly.xreplace({x: y + mu})), y)
-    coeffs_y = [sympy.nsimplify(c) for c in reversed(Py.all_coeffs())]
+    coeffs_y = list(reversed(Py.all_coeffs()))
     res["poly_y"] = [to_rational(sympy.simplify(c)) for c in coeffs_y]
     nm = _normal_raw_moments(mu, s2, kmax + P.degree())
     ints = []
@@ -367,14 +367,14 @@ def cornish_fisher_numeric(sigma, cumulants):
         return {"shape_ok": False}
     z = sympy.Symbol("z")
     P = sympy.Poly(sympy.expand(code), z)
-    coeffs = [to_rational(sympy.nsimplify(c)) for c in reversed(P.all_coeffs())]
+    coeffs = [to_rational(c) for c in reversed(P.all_coeffs())]
     res = {"shape_ok": True, "coeffs": coeffs}
     N = len(cumulants)
     if N <= 6:
         text, k, _ = cornish_fisher_textbook(N)
         tv = sympy.expand(text.xreplace({k[i]: ks[i] for i in k}))
         T = sympy.Poly(tv, z)
-        res["textbook"] = [to_rational(sympy.nsimplify(c)) for c in reversed(T.all_coeffs())]
+        res["textbook"] = [to_rational(c) for c in reversed(T.all_coeffs())]
     return res
 
 
